@@ -5,7 +5,7 @@
 From Coq Require Import QArith Qreals Reals Ring_polynom List Bool Lia Lra.
 From Coquelicot Require Import Coquelicot.
 From EFLib Require Import PolyQ.
-From EFP Require Import C18_InvDefs.
+From EFModel Require Import C18_InvDefs.
 Import ListNotations.
 Open Scope R_scope.
 
